@@ -194,16 +194,24 @@ func init() {
 // (and a restart with hydration by the real registrationhealth controller); after every outcome the NodePool's
 // NodeRegistrationHealthy condition must be what the statement says.
 func c20Controller(r *ev.Rec) {
-	depth := 6
+	all := []string{"success", "failure", "restart", "nodeclass-change", "nodepool-change", "failure+conflict-on-nodepool-patch", "success+conflict-on-nodepool-patch"}
+	outcomes := []string{"success", "failure", "failure+conflict-on-nodepool-patch", "success+conflict-on-nodepool-patch"}
+	// every history over the full alphabet up to one depth, and (longer: the window holds four attempts) every history of
+	// attempts only, with and without a conflicting NodePool write
+	dAll, dOutcomes := 5, 7
 	if r.Tier == "thorough" {
-		depth = 7
+		dAll, dOutcomes = 6, 9
 	}
-	ops := []string{"success", "failure", "restart", "nodeclass-change", "nodepool-change", "failure+conflict-on-nodepool-patch"}
+	r.Extra["controller_level_depth"] = fmt.Sprintf("%d over %d operations, %d over the %d attempt outcomes", dAll, len(all), dOutcomes, len(outcomes))
+	c20ControllerRun(r, all, dAll)
+	c20ControllerRun(r, outcomes, dOutcomes)
+}
+
+func c20ControllerRun(r *ev.Rec, ops []string, depth int) {
 	dims := make([]int, depth)
 	for i := range dims {
 		dims[i] = len(ops)
 	}
-	r.Extra["controller_level_depth"] = depth
 	enum.Run(r, enum.Size(dims...), func(idx int64, l *ev.Local) {
 		d := enum.Odo(idx, dims...)
 		w := world.New(world.Options{})
@@ -213,8 +221,8 @@ func c20Controller(r *ev.Rec) {
 		state := nodepoolhealth.NewState()
 		ctrl := lifecycle.NewController(w.Clock, w.Client, w.CP, w.Rec, state, nil)
 		health := registrationhealth.NewController(w.Clock, w.Client, w.CP, state)
-		var window []bool
-		expect := "Unknown"
+		var window, windowLost []bool
+		expect, expectLost := "Unknown", "Unknown"
 		var hist []string
 		{ // controller start-up: every NodePool is reconciled once (observed generations in sync, condition Unknown)
 			cur := &v1.NodePool{}
@@ -241,6 +249,14 @@ func c20Controller(r *ev.Rec) {
 				default:
 					window = nil
 				}
+				switch expectLost {
+				case "True":
+					windowLost = []bool{true}
+				case "False":
+					windowLost = []bool{false, false}
+				default:
+					windowLost = nil
+				}
 			case "nodeclass-change", "nodepool-change":
 				// a spec change of the NodePool or its NodeClass resets the health signal: condition Unknown, window empty
 				if ops[op] == "nodeclass-change" {
@@ -258,10 +274,12 @@ func c20Controller(r *ev.Rec) {
 				must(w.Raw.Get(w.Ctx, client.ObjectKey{Name: "default"}, cur))
 				_, _ = health.Reconcile(w.Ctx, cur)
 				window, expect = nil, "Unknown"
-			case "success", "failure", "failure+conflict-on-nodepool-patch":
-				conflict := ops[op] == "failure+conflict-on-nodepool-patch"
+				windowLost, expectLost = nil, "Unknown"
+			case "success", "failure", "failure+conflict-on-nodepool-patch", "success+conflict-on-nodepool-patch":
+				conflict := strings.HasSuffix(ops[op], "+conflict-on-nodepool-patch")
 				if conflict {
-					op = 1 // a failure like any other for the reference: ONE attempt failed, however often its write is retried
+					// an attempt like any other for the reference: ONE attempt failed / succeeded, however often its write is retried
+					op = map[string]int{"failure+conflict-on-nodepool-patch": 1, "success+conflict-on-nodepool-patch": 0}[ops[op]]
 				}
 				since := w.Clock.Now()
 				if ops[op] == "failure" {
@@ -306,6 +324,23 @@ func c20Controller(r *ev.Rec) {
 				if ops[op] == "success" && f < 2 {
 					expect = "True"
 				}
+				// second reference, used only to NAME a violation: the same rule when a success whose NodePool write met a
+				// conflict is dropped altogether
+				if !(conflict && ops[op] == "success") {
+					windowLost = withNext(windowLost, ops[op] == "success")
+					fl := 0
+					for _, b := range windowLost {
+						if !b {
+							fl++
+						}
+					}
+					if ops[op] == "failure" && fl >= 2 {
+						expectLost = "False"
+					}
+					if ops[op] == "success" && fl < 2 {
+						expectLost = "True"
+					}
+				}
 			}
 			cur := &v1.NodePool{}
 			must(w.Raw.Get(w.Ctx, client.ObjectKey{Name: "default"}, cur))
@@ -315,7 +350,11 @@ func c20Controller(r *ev.Rec) {
 				l.Traces++
 			}
 			if got != expect {
-				l.Violation("controller: NodeRegistrationHealthy does not follow the last-four rule", fmt.Sprintf("after %v (window %s): condition is %s, the statement requires %s", hist, wstr(window), got, expect), map[string]any{"history": hist})
+				sig := "controller: NodeRegistrationHealthy does not follow the last-four rule"
+				if got == expectLost {
+					sig = "controller: a successful registration whose NodePool status write met a conflict is never counted"
+				}
+				l.Violation(sig, fmt.Sprintf("after %v (window %s): condition is %s, the statement requires %s", hist, wstr(window), got, expect), map[string]any{"history": hist})
 				return
 			}
 		}
